@@ -18,7 +18,9 @@
 (***************************************************************************)
 EXTENDS Naturals, Integers, Sequences, FiniteSets, TLC, Json, IOUtils
 
-CONSTANTS MaxNodes,      \* bound on node occurrences (nodes + alias references)
+CONSTANTS MaxNodes,      \* bound on node occurrences (nodes + alias references);
+                         \* 0 = the catalogue's per-model bound for Tier
+          Tier,          \* "q" | "t": which per-model bound of the catalogue
           ModelIds,      \* set of catalogue model ids explored by this config
           AllowAlias,    \* compose may create aliases
           AllowCycles,   \* aliases may point at a collection still open
@@ -225,7 +227,7 @@ RecClasses(h, n, cname, top, fuel) ==
         RR({}, h2, "", IF cc = {} /\ top THEN {n} ELSE cc, ck)
     ELSE IF Cardinality(ts) > 1 THEN
         (IF tc # "" /\ <<"class", tc>> \in ts THEN RR({<<"class", tc>>}, h2, "", {}, NoK)
-         ELSE RR(ts, h2, "", cc, ck))
+         ELSE RR(ts, h2, "", IF cc = {} THEN {n} ELSE cc, ck))
     ELSE IF ~IsCore(tag) THEN
         (IF tc # "" /\ <<"class", tc>> \in ts THEN RR(ts, h2, "", {}, NoK)
          ELSE RR({}, h2, "", {n}, NoK))
@@ -538,7 +540,9 @@ Con(n, s, prog, dummy) ==
             [] tag \in {"str", "int", "float", "bool", "null", "timestamp"} ->
                  IF h[n].k # "s" THEN CBad(s, "YamlErr", {n}, {})
                  ELSE LET v == CtorLookup(tag, h[n].v) IN
-                      IF v[1] = "ERR" THEN CBad(s, v[2], {n}, {})
+                      \* yatiml wraps PyYAML's int/float/bool/timestamp constructors:
+                      \* ValueError/KeyError/AttributeError become RecognitionError
+                      IF v[1] = "ERR" THEN CBad(s, IF v[2] = "YamlErr" THEN "YamlErr" ELSE "RecErr", {n}, {})
                       ELSE CR(v, s, TRUE)
             [] tag = "!Path" ->
                  IF h[n].k = "s" THEN CR(<<"path", h[n].v>>, s, TRUE)
@@ -565,7 +569,8 @@ Attach(h, id) ==
     IF open = <<>> THEN h
     ELSE [h EXCEPT ![open[Len(open)]].c = Append(@, id)]
 
-CanAdd == phase = "compose" /\ Occurrences < MaxNodes /\ (open # <<>> \/ root = 0)
+NodeBound == IF MaxNodes > 0 THEN MaxNodes ELSE IF Tier = "q" THEN Mod.qn ELSE Mod.tn
+CanAdd == phase = "compose" /\ Occurrences < NodeBound /\ (open # <<>> \/ root = 0)
                             /\ ~(open = <<>> /\ Len(heap) > 0)
 
 ComposeScalar ==
